@@ -4,8 +4,9 @@
 (* loop of RegHttpUpload.  A script is at most MaxLen replies chosen       *)
 (* freely; after that the registry repeats its last reply for ever (the    *)
 (* adversary of "whatever a registry answers").  A behaviour is printed    *)
-(* when the upload returned, or when the design keeps re-sending the same  *)
-(* chunk beyond the bound (predicted run-away).                            *)
+(* when the upload returned (always, with Guard = TRUE), or when the       *)
+(* design keeps re-sending the same chunk beyond the bound (predicted      *)
+(* run-away; only with Guard = FALSE, the code before commit 94ee6b0).     *)
 (***************************************************************************)
 EXTENDS RegHttpUpload, Json
 VARIABLE hist
